@@ -91,7 +91,7 @@ func After(d Duration) <-chan Time {
 	}
 	c := make(chan Time, 1)
 	n := s.Stamp()
-	s.Go(fmt.Sprintf("after@%d(%v)", n, d), true, func() {
+	s.GoTimer(fmt.Sprintf("after@%d(%v)", n, d), func() {
 		if s.Over() {
 			return
 		}
@@ -130,7 +130,7 @@ func NewTimer(d Duration) *Timer {
 	c := make(chan Time, 1)
 	t.C = c
 	n := s.Stamp()
-	s.Go(fmt.Sprintf("timer@%d(%v)", n, d), true, func() {
+	s.GoTimer(fmt.Sprintf("timer@%d(%v)", n, d), func() {
 		if s.Over() {
 			return
 		}
@@ -190,7 +190,7 @@ func AfterFunc(d Duration, f func()) *Timer {
 	}
 	t := time.AfterFunc(never, func() {})
 	n := s.Stamp()
-	s.Go(fmt.Sprintf("timer@%d(%v)", n, d), true, func() {
+	s.GoTimer(fmt.Sprintf("timer@%d(%v)", n, d), func() {
 		if s.Over() {
 			return
 		}
